@@ -7,7 +7,11 @@ lookup, all five exclusion sources feeding no_cover_lines under their own flags,
 priority of no-cover over only-cover; and, by interpreting ModuleAstInfo / AstInfo from source over a
 representative module (nested scopes to depth 3, try / except / else / finally, for-else, while, if / elif /
 else, match), that a marker excludes exactly its own line plus the block it heads and that scopes are found
-under their qualified names.  Arbitrary modules and the converse clause (every executable line outside
+under their qualified names.  C08.pipeline interprets from_path + get_scope + should_be_covered / should_cover_line over
+small modules x configurations with the expected answer written down per case: only-cover / no-cover nesting in both
+directions, definitions inside excluded blocks, separator characters that do not end a line for the compiler, async for,
+names defined twice, the else branches of TYPE_CHECKING / __main__ blocks and the two marker flags.  C08.read interprets
+read_module_ast over a representative file system (plain, UTF-8 BOM, encoding declaration).  Arbitrary modules and the converse clause (every executable line outside
 excluded code is a goal) are not decided.
 """
 
@@ -151,10 +155,14 @@ def check(ctx) -> None:
     ctx.rule("C08.guard", "GUARD-DOM (interprocedural): every register_line / register_predicate / register_code_object call is reachable only through an edge establishing the matching AstInfo oracle (or the `ast_info is None` / non-int lineno bypass), in its own function or in every caller", floor=6)
     ctx.rule("C08.inclusive", "scope_line_range returns an inclusive (start, end): every range() bound and containment comparison built from its components respects that", floor=6)
     ctx.rule("C08.first-scope", "ModuleAstInfo.get_scope selects the FIRST scope in pre-order (the outermost one) among scopes starting on the line", floor=2)
-    ctx.rule("C08.sources", "ModuleAstInfo.from_path unions all exclusion sources into no_cover_lines, each inline pattern gated by its own flag; ignore_methods feed no_cover", floor=7)
-    ctx.rule("C08.priority", "AstInfo._in_cover rejects a no-cover line before only-cover is consulted; should_be_covered quantifies universally over enclosing definitions", floor=3)
+    ctx.rule("C08.sources", "ModuleAstInfo.from_path unions all exclusion sources into no_cover_lines, each inline pattern gated by its own flag; ignore_methods feed no_cover", floor=5)
+    ctx.rule("C08.priority", "AstInfo._in_cover rejects a no-cover line before only-cover is consulted; should_be_covered quantifies universally over enclosing definitions", floor=2)
     ctx.rule("C08.arms", "should_cover_line has an exclusion arm for every compound statement kind it enumerates; should_cover_conditional_statement requires both the statement and its else lines", floor=8)
 
+    ctx.rule("C08.pipeline", "ABSINT: from_path + get_scope + should_be_covered / should_cover_line interpreted over small modules x configurations (only-cover / no-cover nesting, definitions in excluded blocks, separators that do not end a line, async for, names defined twice, else of TYPE_CHECKING / __main__, marker flags) give the answers written down per case", floor=50)
+    _pipeline(ctx, repo)
+    ctx.rule("C08.read", "ABSINT: read_module_ast over a representative file system (plain, UTF-8 BOM, encoding declaration) returns the tree the compiler would build", floor=3)
+    _read_source(ctx, repo)
     ctx.rule("C08.lines", "ABSINT: scope names and should_cover_line interpreted over a representative module: a marker excludes exactly its own line and the block it heads; scopes are named by their qualified name at every depth", floor=20)
     _lines(ctx, repo)
 
@@ -290,13 +298,7 @@ def check(ctx) -> None:
     ret = [n for n in own_nodes(fp) if isinstance(n, ast.Return) and isinstance(n.value, ast.Call) and norm(n.value.func) == "cls"]
     ok = bool(ret) and all({k.arg: norm(k.value) for k in r.value.keywords}.get("no_cover_lines") == "no_cover_lines" and {k.arg: norm(k.value) for k in r.value.keywords}.get("only_cover_lines") == "only_cover_lines" for r in ret)
     ctx.check("C08.sources", fp, ok, "from_path does not pass the computed line sets to the ModuleAstInfo", what="cls(only_cover_lines=only_cover_lines, no_cover_lines=no_cover_lines)", stmt="[ctor]")
-    # excluded blocks: both recognisers, inclusive ranges
-    fb = repo.func(TR, "ModuleAstInfo._find_excluded_block_lines")
-    ctx.analysed(fb)
-    for rec in ("_is_main", "_is_type_checking"):
-        ifs = [n for n in own_nodes(fb) if isinstance(n, ast.If) and norm(n.test) == f"{rec}(node)"]
-        ok = bool(ifs) and any(isinstance(x, (ast.YieldFrom, ast.Yield)) for i in ifs for x in ast.walk(i))
-        ctx.check("C08.sources", fb, ok, f"_find_excluded_block_lines no longer yields the lines of `{rec}` blocks", what=f"{rec} blocks excluded", stmt=f"[{rec}]")
+    # (which blocks _find_excluded_block_lines yields is decided by C08.pipeline: TYPE_CHECKING / __main__ bodies excluded, their else branches kept)
     # ignore_methods -> no_cover
     ih = repo.func(MA, "install_import_hook")
     ctx.analysed(ih)
@@ -326,11 +328,7 @@ def check(ctx) -> None:
     r = [n for n in own_nodes(sbc) if isinstance(n, ast.Return)]
     ok = len(r) == 1 and isinstance(r[0].value, ast.BoolOp) and isinstance(r[0].value.op, ast.And) and any(isinstance(v, ast.Call) and norm(v.func) == "all" for v in r[0].value.values) and any(norm(v).startswith("self._in_cover(") for v in r[0].value.values)
     ctx.check("C08.priority", sbc, ok, "should_be_covered no longer requires the scope itself AND all enclosing definitions to be in cover", what="self in cover and all(enclosing definitions in cover)")
-    if ok:
-        allc = next(v for v in r[0].value.values if isinstance(v, ast.Call) and norm(v.func) == "all")
-        ge = allc.args[0]
-        okf = isinstance(ge, ast.GeneratorExp) and norm(ge.elt).startswith("self._in_cover(") and len(ge.generators[0].ifs) == 1
-        ctx.check("C08.priority", allc, okf, "the quantifier over enclosing definitions lost its _in_cover body or containment filter", what="all(_in_cover(start of d) for d enclosing)", stmt="[all-enclosing]")
+    # (the quantifier over enclosing definitions is decided by C08.pipeline: a function nested two levels inside a no-cover class)
 
     # ------------------------------------------------------------------ C08.arms
     scl = repo.func(TR, "AstInfo.should_cover_line")
@@ -672,3 +670,148 @@ def _jump_line(ctx, repo) -> None:
                 ctx.undecide("C08.lines", vn, f"[{v}] {tag}: {exc}")
                 continue
             ctx.check("C08.lines", vn, not reached, f"[{v}] {tag}: visit_node registers the predicate ({reached}): a conditional expression / exception handler / assert on a line marked `# pragma: no cover` remains a branch goal", what=f"[{v}] {tag}: not registered", stmt=f"[{v}] {tag}")
+
+
+# ---------------------------------------------------------------------------------------------- C08.pipeline
+# (label, source, config, [(kind, scope line, line or None, expected, what)])   kind: "scope" -> should_be_covered of the
+# scope whose code object starts on `scope line`; "line" -> should_cover_line(line) asked of that scope (0 = module)
+_P = [
+    ("only-cover class", "class K:\n    a = 1\n    def m(self):\n        return 2\ndef other():\n    return 3\n", {"only_cover": ["K"]}, [
+        ("scope", 1, None, True, "the only-cover class"), ("scope", 3, None, True, "a method of the only-cover class"), ("line", 3, 4, True, "a line of that method"),
+        ("scope", 5, None, False, "a function outside the only-cover class"), ("scope", 0, None, True, "the module that contains the only-cover class")]),
+    ("only-cover function", "def foo():\n    def inner():\n        return 1\n    f = lambda: 2\n    return inner, f\ndef bar():\n    return 3\n", {"only_cover": ["foo"]}, [
+        ("scope", 2, None, True, "a function nested in the only-cover function"), ("scope", 4, None, True, "a lambda in the only-cover function"), ("scope", 6, None, False, "another function")]),
+    ("only-cover method", "class K:\n    def m(self):\n        return 1\n    def n(self):\n        return 2\n", {"only_cover": ["K.m"]}, [
+        ("scope", 2, None, True, "the only-cover method"), ("scope", 4, None, False, "its sibling"), ("scope", 1, None, True, "the class that contains it")]),
+    ("no-cover class", "class K:\n    def m(self):\n        def deep():\n            return 1\n        return deep\ndef other():\n    return 3\n", {"no_cover": ["K"]}, [
+        ("scope", 1, None, False, "the no-cover class"), ("scope", 2, None, False, "a method of the no-cover class"), ("scope", 3, None, False, "a function nested two levels inside the no-cover class"),
+        ("scope", 6, None, True, "a function outside")]),
+    ("no-cover inside only-cover", "class K:\n    def m(self):\n        return 1\n    def n(self):\n        return 2\n", {"only_cover": ["K"], "no_cover": ["K.n"]}, [
+        ("scope", 2, None, True, "a method of the only-cover class"), ("scope", 4, None, False, "the no-cover method of the only-cover class")]),
+    ("definition in an excluded branch", "def outer(x):\n    if x:  # pragma: no cover\n        def inner():\n            return 1\n        return inner\n    else:\n        def kept():\n            return 2\n    return None\nif outer:  # pynguin: no cover\n    class Hidden:\n        def m(self):\n            return 1\n", {}, [
+        ("scope", 3, None, False, "a function defined in an excluded if-branch"), ("scope", 7, None, True, "a function defined in the else branch that is not excluded"),
+        ("scope", 11, None, False, "a class defined in an excluded module-level block"), ("scope", 12, None, False, "a method of that class"), ("scope", 1, None, True, "the enclosing function")]),
+    ("separators that do not end a line", "def a():\n    s = 'x\x0cy'  # form feed in a string\n    return s\n\x0c\ndef b():  # pragma: no cover\n    return 2\n# \x0b \x1c \x1d \x1e \x85 \u2028 \u2029\ndef c():  # pragma: no cover\n    return 3\ndef d():\n    return 4\n", {}, [
+        ("scope", 1, None, True, "a function without marker"), ("scope", 5, None, False, "the marked function after a form feed"), ("scope", 8, None, False, "the marked function after other separator characters"),
+        ("scope", 10, None, True, "the unmarked function after them")]),
+    ("carriage returns", "def a():  # pragma: no cover\r\n    return 1\r\ndef b():\r\n    return 2\rdef c():  # pragma: no cover\r    return 3\r", {}, [
+        ("scope", 1, None, False, "marked function, CRLF"), ("scope", 3, None, True, "unmarked function"), ("scope", 5, None, False, "marked function after bare CR line ends")]),
+    ("async for", "async def f(xs):\n    async for x in xs:  # pragma: no cover\n        y = x\n    else:\n        y = 0\n    async for x in xs:\n        z = x\n    else:  # pragma: no cover\n        z = 0\n    return 1\n", {}, [
+        ("line", 1, 3, False, "the body of a marked async for"), ("line", 1, 5, True, "the else of a marked async for header"), ("line", 1, 7, True, "the body of an unmarked async for"),
+        ("line", 1, 9, False, "the marked else of an async for"), ("line", 1, 10, True, "the statement after the loops")]),
+    ("name defined twice", "class C:\n    @property\n    def x(self):\n        return 1\n    @x.setter\n    def x(self, v):\n        self._x = v\n    def y(self):\n        return 2\n", {"no_cover": ["C.x"]}, [
+        ("scope", 2, None, False, "the getter"), ("scope", 5, None, False, "the setter"), ("scope", 8, None, True, "another method")]),
+    ("name defined twice, only-cover", "class C:\n    @property\n    def x(self):\n        return 1\n    @x.setter\n    def x(self, v):\n        self._x = v\n    def y(self):\n        return 2\n", {"only_cover": ["C.x"]}, [
+        ("scope", 2, None, True, "the getter"), ("scope", 5, None, True, "the setter"), ("scope", 8, None, False, "another method")]),
+    ("type-checking and main blocks", "import typing\nfrom typing import TYPE_CHECKING\nif TYPE_CHECKING:\n    import os\nelse:\n    os = None\nif typing.TYPE_CHECKING:\n    import sys\nx = 1\nif __name__ == '__main__':\n    x = 2\nelse:\n    x = 3\n", {}, [
+        ("line", 0, 4, False, "the TYPE_CHECKING block"), ("line", 0, 6, True, "the else branch of the TYPE_CHECKING block (it runs)"), ("line", 0, 8, False, "the typing.TYPE_CHECKING block"),
+        ("line", 0, 9, True, "the statement after the blocks"), ("line", 0, 11, False, "the __main__ block"), ("line", 0, 13, True, "the else branch of the __main__ block (it runs on import)")]),
+    ("pragma flag off", "def a():  # pragma: no cover\n    return 1\ndef b():  # pynguin: no cover\n    return 2\n", {"enable_inline_pragma_no_cover": False}, [
+        ("scope", 1, None, True, "`# pragma: no cover` with the pragma flag off"), ("scope", 3, None, False, "`# pynguin: no cover` with the pragma flag off")]),
+    ("pynguin flag off", "def a():  # pragma: no cover\n    return 1\ndef b():  # pynguin: no cover\n    return 2\n", {"enable_inline_pynguin_no_cover": False}, [
+        ("scope", 1, None, False, "`# pragma: no cover` with the pynguin flag off"), ("scope", 3, None, True, "`# pynguin: no cover` with the pynguin flag off")]),
+]
+
+
+def _pipeline(ctx, repo) -> None:
+    """ModuleAstInfo.from_path and the AstInfo oracles, interpreted from source over small modules and configurations,
+    answer as the property demands (expected answers are written down per case, not computed by the code under analysis)."""
+    from sa.engine import peval
+
+    tmod = repo.module(TR)
+    fp = repo.func(TR, "ModuleAstInfo.from_path")
+    for q in ("ModuleAstInfo.from_path", "ModuleAstInfo._find_lines_in_source_code", "ModuleAstInfo._find_lines_in_ast", "ModuleAstInfo._find_excluded_block_lines", "AstInfo.should_be_covered", "AstInfo._in_cover"):
+        ctx.analysed(repo.func(TR, q))
+    cres = peval.repo_class_resolver(repo, only={"ModuleAstInfo", "AstInfo"})
+    scope_node = tuple(getattr(ast, n.attr) for n in ast.walk(tmod.assigns["SCOPE_CLASSES"]) if isinstance(n, ast.Attribute))
+    for label, src, conf, asks in _P:
+        tree = ast.parse(src)
+        it = peval.Interp(resolver=peval.repo_resolver(repo), class_resolver=cres, native_types=(ast.AST,), max_steps=3000000,
+                          consts={"ast": ast, "_ast": ast, "TryStar": ast.TryStar, "ScopeNode": scope_node, "SCOPE_CLASSES": scope_node},
+                          externs={"cast": lambda _t, v: v, "read_module_ast": lambda _p, tree=tree, src=src: (tree, src)})
+        cfgo = peval.Obj("to_cover_config", fields={"only_cover": list(conf.get("only_cover", [])), "no_cover": list(conf.get("no_cover", [])),
+                                                     "enable_inline_pynguin_no_cover": conf.get("enable_inline_pynguin_no_cover", True), "enable_inline_pragma_no_cover": conf.get("enable_inline_pragma_no_cover", True)})
+        try:
+            proto = it.instantiate("ModuleAstInfo", cres("ModuleAstInfo", tmod), [], {"module_ast": tree, "only_cover_lines": frozenset(), "no_cover_lines": frozenset()}, init=False)
+            mai = proto.methods["from_path"]("representative.py", cfgo)
+        except peval.Undecided as exc:
+            ctx.undecide("C08.pipeline", fp, f"[{label}] from_path: {exc}")
+            continue
+        except peval.Raises as exc:
+            ctx.fail("C08.pipeline", fp, f"[{label}] from_path raises {exc.name} ({exc.detail[:60]})", stmt=f"[{label}] from_path")
+            continue
+        for kind, sline, line, want, what in asks:
+            tag = f"[{label}] {what}"
+            try:
+                sc = mai.methods["get_scope"](sline)
+                if sc is None:
+                    ctx.fail("C08.pipeline", fp, f"{tag}: no scope is found for the code object starting on line {sline}", stmt=tag)
+                    continue
+                got = sc.methods["should_be_covered"]() if kind == "scope" else sc.methods["should_cover_line"](line)
+            except peval.Undecided as exc:
+                ctx.undecide("C08.pipeline", fp, f"{tag}: {exc}")
+                continue
+            except peval.Raises as exc:
+                ctx.fail("C08.pipeline", fp, f"{tag}: raises {exc.name} ({exc.detail[:60]})", stmt=tag)
+                continue
+            verdict = "is a goal" if got else "is no goal"
+            ctx.check("C08.pipeline", fp, bool(got) == want, f"{tag} {verdict} (config {conf or 'default'}): {'excluded code keeps its goals' if got else 'code that is to be covered loses its goals'}", what=f"{tag}: {'covered' if want else 'excluded'}", stmt=tag)
+
+
+def _read_source(ctx, repo) -> None:
+    """read_module_ast, interpreted with a representative file system, reads what the compiler reads: a UTF-8 byte-order
+    mark and an encoding declaration do not make the exclusions of a module unavailable."""
+    import io
+    import tokenize
+
+    from sa.engine import peval
+
+    AM = "pynguin.analyses.module"
+    fn = repo.try_func(AM, "read_module_ast")
+    if fn is None:
+        raise AnalysisError("anchor vanished: pynguin.analyses.module.read_module_ast")
+    ctx.analysed(fn)
+    amod = repo.module(AM)
+    files = {
+        "plain.py": ("def a():  # pragma: no cover\n    return 'x'\n".encode(), "x", "a plain UTF-8 module"),
+        "bom.py": (b"\xef\xbb\xbf" + "def a():  # pragma: no cover\n    return 'x'\n".encode(), "x", "a module that starts with a UTF-8 byte-order mark"),
+        "cookie.py": ("# -*- coding: latin-1 -*-\ndef a():  # pragma: no cover\n    return '\xe9'\n".encode("latin-1"), "\xe9", "a module with an encoding declaration (latin-1)"),
+    }
+
+    class _Path:
+        def __init__(self, p):
+            self.p = str(p)
+
+        def read_text(self, encoding=None, errors=None):
+            return peval._guard(io.TextIOWrapper(io.BytesIO(files[self.p][0]), encoding=encoding or "utf-8", errors=errors).read)
+
+        def read_bytes(self):
+            return files[self.p][0]
+
+        def open(self, mode="r", encoding=None, **_k):
+            return _open(self.p, mode, encoding=encoding)
+
+    def _open(p, mode="r", encoding=None, **_k):
+        data = files[str(getattr(p, "p", p))][0]
+        return io.BytesIO(data) if "b" in mode else io.TextIOWrapper(io.BytesIO(data), encoding=encoding or "utf-8")
+
+    def _tok_open(p):
+        data = files[str(getattr(p, "p", p))][0]
+        enc, _ = tokenize.detect_encoding(io.BytesIO(data).readline)
+        return io.TextIOWrapper(io.BytesIO(data), encoding=enc, line_buffering=True)
+
+    for name, (_data, lit, what) in files.items():
+        tag = f"[read {what}]"
+        it = peval.Interp(resolver=peval.repo_resolver(repo), native_types=(_Path, io.IOBase, ast.AST), max_steps=100000,
+                          consts={"ast": ast, "tokenize": tokenize, "io": io}, externs={"Path": _Path, "open": _open, "tokenize.open": lambda *a, **k: peval._guard(_tok_open, *a, **k), "ast.parse": lambda *a, **k: peval._guard(ast.parse, *a, **k), "io.open": _open})
+        try:
+            res = it.run_function(fn, [name], {}, amod)
+        except peval.Undecided as exc:
+            ctx.undecide("C08.read", fn, f"{tag}: {exc}")
+            continue
+        except peval.Raises as exc:
+            ctx.fail("C08.read", fn, f"{tag}: read_module_ast raises {exc.name} ({exc.detail[:70]}) although the interpreter compiles and imports the file: ModuleAstInfo.from_path returns None (or fails), so every `# pragma: no cover`, no_cover and only_cover setting of the module is ignored", stmt=tag)
+            continue
+        tree = res[0] if isinstance(res, tuple) and res else None
+        strings = [n.value for n in ast.walk(tree) if isinstance(n, ast.Constant) and isinstance(n.value, str)] if isinstance(tree, ast.AST) else None
+        ctx.check("C08.read", fn, strings is not None and lit in strings, f"{tag}: the tree that is returned holds the string constants {strings}, the compiler sees {lit!r}", what=f"{tag}: parsed as the compiler reads it", stmt=tag)
